@@ -21,7 +21,7 @@ C ↔ model
   rfbShutdownServer / rfbScreenCleanup          ↔ `shutdown` / `cleanup`
   rfbRefuseOnHoldClient / rfbStartOnHoldClient  ↔ `Op.refuse` / `Op.start`
 
-The code has six known life-cycle defects.  The model is parametrised by a `Variant` saying, for
+The code had seven known life-cycle defects (all fixed in /repo by now except where the probe says otherwise).  The model is parametrised by a `Variant` saying, for
 each of them, whether the code under test has the fix (`true`) or not; the correspondence run
 measures the variant of the code on every run (corpus witnesses) and compares against exactly that
 variant.  `Variant.current` is the code as found, `Variant.fixed` the code with fixes/C12-*.diff
@@ -41,13 +41,14 @@ structure Variant where
   wsOnePath : Bool   -- a second "GET" line in the WebSocket handshake frees the first path
   ftClose : Bool     -- rfbClientConnectionGone closes cl->fileTransfer.fd
   extFree : Bool     -- rfbClientConnectionGone frees the cl->extensions list
+  goneExtClose : Bool -- rfbClientConnectionGone runs the close hook of extensions that still own data
   deriving DecidableEq, Repr
 
-def Variant.current : Variant := ⟨false, false, false, false, false, false⟩
-def Variant.fixed : Variant := ⟨true, true, true, true, true, true⟩
+def Variant.current : Variant := ⟨false, false, false, false, false, false, false⟩
+def Variant.fixed : Variant := ⟨true, true, true, true, true, true, true⟩
 
 inductive St where
-  | ver | sec | init | normal
+  | ver | sec | auth | init | normal
   deriving DecidableEq, Repr
 
 /-- compression state and buffers held by a client record (counts as the harness prints them) -/
@@ -64,7 +65,8 @@ structure Res where
 def Res.empty : Res := {}
 
 inductive Msg where
-  | ver | sec | init (shared : Bool) | enc | req | scale (k : Nat) | pf | key | junk | part | ft
+  | ver | sec | auth (ok : Bool) | init (shared : Bool) | enc | req | scale (k : Nat) | pf | key
+  | ptr (down : Bool) | junk | part | ft | ftgo
   | eof        -- not a message: the peer has closed / reset the connection
   deriving DecidableEq, Repr
 
@@ -84,12 +86,14 @@ structure Conn where
   goneCalls : Nat := 0
   freed : Bool := false
   refHeld : Bool := true
-  scr : Nat × Nat := (64, 48)
+  scr : Nat × Nat := (128, 96)
   res : Res := {}
   wsctx : Bool := false
   wspath : Bool := false
   ftFd : Bool := false
   exts : Nat := 0
+  extData : Bool := false   -- an enabled extension still owns per-client data (released by its close hook)
+  ftSending : Bool := false -- a download is in progress: rfbCheckFds sends a chunk every round
   -- protocol and scheduling
   onHold : Bool := false
   st : St := .ver
@@ -102,6 +106,7 @@ structure Conn where
 inductive Event where
   | new (i : Nat) | hook (i : Nat) (h : Hook) | ret (i : Nat) (ok : Bool)
   | close (i : Nat) | gone (i : Nat) | kbd (i : Nat)
+  | xnew (i : Nat) | xinit (i : Nat) | xclose (i : Nat) (withData : Bool)   -- extension hooks
   deriving DecidableEq, Repr
 
 structure Screen where
@@ -113,7 +118,7 @@ structure Screen where
 structure World where
   conns : List Conn := []
   list : List Nat := []                       -- clientHead list, head first
-  screens : List Screen := [⟨64, 48, 0⟩]      -- main screen first, then scaled screens (newest first)
+  screens : List Screen := [⟨128, 96, 0⟩]      -- main screen first, then scaled screens (newest first)
   -- what has been lost for good (one counter per way of losing it)
   nbLost : Nat := 0                           -- records dropped by the rfbSetNonBlocking failure path
   recLost : Nat := 0                          -- records still listed when the screen was freed
@@ -121,8 +126,11 @@ structure World where
   wsLostHs : Nat := 0                         -- wspath blocks overwritten during the handshake
   wsLostGone : Nat := 0                       -- wspath blocks dropped by rfbClientConnectionGone
   extLost : Nat := 0                          -- extension list nodes dropped with the record
+  extDataLost : Nat := 0                      -- extension data whose close hook never ran
   stray : Nat := 0                            -- file-transfer descriptors nobody owns any more
   extOn : Bool := false
+  pwOn : Bool := false                        -- new clients must authenticate (VNC authentication)
+  ptrOwner : Option Nat := none               -- screen->pointerClient
   cleaned : Bool := false
   log : List Event := []
   deriving DecidableEq, Repr
@@ -167,13 +175,23 @@ def screenIndex (ss : List Screen) (d : Nat × Nat) : Nat :=
 
 /-! ### the two teardown primitives -/
 
-/-- `rfbCloseClient` (non-threaded): FD_CLR, free(wspath), close the socket, sock := -1;
-everything guarded by `sock != -1` (a second call is a no-op as far as the model's state goes). -/
+/-- what `rfbCloseClient` (non-threaded) does to the record.  On EVERY call: the `close` hook of each
+enabled extension gets the extension's data (`extension->data = NULL` afterwards).  Guarded by
+`sock != -1`: FD_CLR, free(wspath), close the socket, sock := -1. -/
+def closeRec (c : Conn) : Conn :=
+  if c.sockOpen then
+    { c with sockOpen := false, closeCalls := c.closeCalls + 1, wspath := false, extData := false }
+  else { c with extData := false }
+
+/-- `rfbCloseClient` (non-threaded).  A second call changes nothing in the model's state; the
+extensions' close hooks are told again (without data). -/
 def closeClient (w : World) (i : Nat) : World :=
-  if isOpen w i then
-    emit (modConn w i fun c => { c with sockOpen := false, closeCalls := c.closeCalls + 1, wspath := false })
-      (.close i)
-  else w
+  match w.conns[i]? with
+  | none => w
+  | some c =>
+    let w1 := if c.exts > 0 then emit w (.xclose i c.extData) else w
+    let w2 := modConn w1 i closeRec
+    if c.sockOpen then emit w2 (.close i) else w2
 
 /-- `rfbClientConnectionGone`: unlink, close the socket if it is still open, drop the screen
 reference, free compression state and buffers, call the gone hook, free wsctx, (variant: wspath,
@@ -189,6 +207,8 @@ def goneRec (c : Conn) : Conn :=
     wspath := false
     ftFd := false
     exts := 0
+    extData := false
+    ftSending := false
     freed := true }
 
 def goneCore (v : Variant) (w : World) (i : Nat) (c : Conn) : World :=
@@ -197,7 +217,9 @@ def goneCore (v : Variant) (w : World) (i : Nat) (c : Conn) : World :=
     screens := if c.refHeld then decRef w.screens c.scr else w.screens
     wsLostGone := w.wsLostGone + (if c.wspath && !v.goneWspath then 1 else 0)
     stray := w.stray + (if c.ftFd && !v.ftClose then 1 else 0)
-    extLost := w.extLost + (if v.extFree then 0 else c.exts) }
+    extLost := w.extLost + (if v.extFree then 0 else c.exts)
+    extDataLost := w.extDataLost + (if c.extData && !v.goneExtClose then 1 else 0)
+    ptrOwner := if w.ptrOwner == some i then none else w.ptrOwner }
   let w2 := if c.sockOpen then emit w1 (.close i) else w1
   let w3 := modConn w2 i goneRec
   if c.hooked then emit w3 (.gone i) else w3
@@ -208,9 +230,11 @@ def gone (v : Variant) (w : World) (i : Nat) : World :=
   | some c =>
     let w4 := goneCore v w i c
     -- the application's gone hook may close another client it knows
-    match c.goneKick with
-    | some k => if c.hooked && appKnows w4 k then closeClient w4 k else w4
-    | none => w4
+    let w5 := match c.goneKick with
+      | some k => if c.hooked && appKnows w4 k then closeClient w4 k else w4
+      | none => w4
+    -- (variant) extensions that still own data get their close hook while the node list is freed
+    if c.extData && v.goneExtClose then emit w5 (.xclose i true) else w5
 
 /-! ### accepting a connection: `rfbNewTCPOrUDPClient` -/
 
@@ -223,13 +247,13 @@ def nbFail (v : Variant) (w : World) : World :=
   let lost : Conn := { sockOpen := false, closeCalls := 1, refHeld := !v.nbFree, freed := v.nbFree }
   let w : World := { w with
     conns := w.conns ++ [lost]
-    screens := if v.nbFree then w.screens else incRef w.screens (64, 48)
+    screens := if v.nbFree then w.screens else incRef w.screens (128, 96)
     nbLost := w.nbLost + (if v.nbFree then 0 else 1) }
   emit (emit w (.close i)) (.ret i false)
 
 /-- calloc, scaledScreen = screen, refcount++, linked at the head of the client list -/
 def spawn (w : World) : World :=
-  { w with conns := w.conns ++ [{}], screens := incRef w.screens (64, 48), list := w.conns.length :: w.list }
+  { w with conns := w.conns ++ [{}], screens := incRef w.screens (128, 96), list := w.conns.length :: w.list }
 
 /-- the WebSocket handshake stores a copy of the path of every "GET" line in `cl->wspath` -/
 def wsStage (v : Variant) (w : World) (i ws : Nat) : World :=
@@ -250,9 +274,10 @@ def hookStage (v : Variant) (w : World) (i : Nat) (h : Hook) : World :=
   | .hold => emit (modConn w i fun c => { c with onHold := true }) (.ret i true)
   | .refuse => bail v w i
 
-/-- extensions' newClient (an enabled extension gets a list node), then the newClientHook -/
+/-- extensions' newClient (the harness registers two: one with per-client data and init/close hooks,
+one with nothing; each enabled extension gets a list node), then the newClientHook -/
 def acceptHook (v : Variant) (w : World) (i : Nat) (h : Hook) : World :=
-  hookStage v (if w.extOn then modConn w i fun c => { c with exts := 1 } else w) i h
+  hookStage v (if w.extOn then emit (modConn w i fun c => { c with exts := 2, extData := true }) (.xnew i) else w) i h
 
 /-- after a successful WebSocket check: wsctx exists for WebSocket clients; the server's protocol
 version is written -/
@@ -272,7 +297,7 @@ def accept (v : Variant) (w : World) (h : Hook) (ws : Nat) (nb : Bool) (x : Fail
 
 /-! ### one client message: `rfbProcessClientMessage` -/
 
-def scaleDims (k : Nat) : Nat × Nat := (64 / k, 48 / k)
+def scaleDims (k : Nat) : Nat × Nat := (128 / k, 96 / k)
 
 /-- `rfbScalingSetup`: find or allocate the screen, move the reference -/
 def setScale (w : World) (i : Nat) (k : Nat) : World :=
@@ -310,8 +335,13 @@ def openFt (v : Variant) (w : World) (i : Nat) : World :=
 def msgEffect (v : Variant) (w : World) (i : Nat) (m : Msg) : World :=
   match m with
   | .ver => modConn w i fun c => { c with st := .sec }
-  | .sec => modConn w i fun c => { c with st := .init }
+  | .sec => modConn w i fun c => { c with st := if w.pwOn then .auth else .init }
+  | .auth ok => if ok then modConn w i fun c => { c with st := .init } else closeClient w i
   | .init sh =>
+    -- ServerInit written; the extensions' init hooks; state NORMAL; the policy block
+    let w := match w.conns[i]? with
+      | some c => if c.exts > 0 then emit w (.xinit i) else w
+      | none => w
     let w := modConn w i fun c => { c with st := .normal }
     if sh then w else closeOthers w i w.list
   | .enc => w
@@ -323,9 +353,15 @@ def msgEffect (v : Variant) (w : World) (i : Nat) (m : Msg) : World :=
     match w.conns[i]? with
     | some c => if c.kbdClose then closeClient w i else w
     | none => w
+  | .ptr down =>
+    -- another client holds the pointer: ignored; else taken (button down) or released
+    match w.ptrOwner with
+    | some j => if j != i then w else { w with ptrOwner := if down then some i else none }
+    | none => { w with ptrOwner := if down then some i else none }
   | .junk => closeClient w i
   | .part => closeClient w i
   | .ft => openFt v w i
+  | .ftgo => modConn w i fun c => { c with ftSending := c.ftFd }
   | .eof => closeClient w i
 
 /-- is `m` a message the protocol allows in state `st`?  (Everything else is outside the model;
@@ -335,7 +371,10 @@ def msgOk (st : St) (m : Msg) : Bool :=
   | _, .eof => true
   | .ver, .ver => true
   | .sec, .sec => true
+  | .auth, .auth _ => true
   | .init, .init _ => true
+  | .ver, .part | .auth, .part => true
+  | .normal, .ptr _ | .normal, .ftgo => true
   | .normal, .scale k => k ≤ 255
   | .normal, .enc | .normal, .req | .normal, .pf | .normal, .key
   | .normal, .junk | .normal, .part | .normal, .ft => true
@@ -344,7 +383,7 @@ def msgOk (st : St) (m : Msg) : Bool :=
 /-- does the server answer this message (or send an update for it)?  Once the peer has closed, the
 first such write fails (EPIPE). -/
 def msgWrites : Msg → Bool
-  | .ver | .sec | .init _ | .req | .ft => true
+  | .ver | .sec | .auth _ | .init _ | .req | .ft | .ftgo => true
   | .scale k => k != 0
   | _ => false
 
@@ -395,6 +434,12 @@ def ready (w : World) (i : Nat) : Bool :=
   | some c => c.sockOpen && !c.onHold && !c.inbox.isEmpty
   | none => false
 
+/-- a download is in progress on an open, not held client and the observed failure hits its chunk -/
+def chunkFails (w : World) (xs : Ann) (i : Nat) : Bool :=
+  match w.conns[i]? with
+  | some c => c.sockOpen && !c.onHold && c.ftSending && annFail xs i != .none
+  | none => false
+
 /-- `rfbCheckFds`: the client iterator skips closed clients (checked when it advances, i.e. with the
 world as it is then); on-hold clients are skipped; one message per readable client.
 The failure annotation of a connection is consumed by the first message it processes. -/
@@ -403,6 +448,9 @@ def checkFds (v : Variant) (w : World) (xs : Ann) (rs : ResAnn) : List Nat → W
   | i :: rest =>
     if ready w i then
       checkFds v (procMsg v w i (annFail xs i) (annRes rs w i)) (xs.filter fun p => p.1 != i) rs rest
+    else if chunkFails w xs i then
+      -- nothing to read: `rfbSendFileTransferChunk`, whose write fails
+      checkFds v (closeClient w i) (xs.filter fun p => p.1 != i) rs rest
     else checkFds v w xs rs rest
 
 /-- the reaping loop of `rfbProcessEvents` (iterator "with closed"): every listed client whose
@@ -416,14 +464,14 @@ def processEvents (v : Variant) (w : World) (xs : Ann) (rs : ResAnn) : World × 
   let (w1, xs1) := checkFds v w xs rs w.list
   (reap v w1 w1.list, xs1)
 
-def hasWork (w : World) : Bool :=
-  w.list.any fun i => ready w i || !isOpen w i
+def hasWork (w : World) (xs : Ann) : Bool :=
+  w.list.any fun i => ready w i || !isOpen w i || chunkFails w xs i
 
 /-- run the loop until it is at rest (the harness does the same) -/
 def pump (v : Variant) (xs : Ann) (rs : ResAnn) : Nat → World → World
   | 0, w => w
   | n + 1, w =>
-    if hasWork w then
+    if hasWork w xs then
       let (w1, xs1) := processEvents v w xs rs
       pump v xs1 rs n w1
     else w
@@ -444,7 +492,7 @@ def sweep (v : Variant) (f : World → Nat → World) (w wDec : World) : List Na
 
 /-- one client of `rfbShutdownServer`: `rfbCloseClient` if still open, `rfbClientConnectionGone` -/
 def shutOne (v : Variant) (w : World) (i : Nat) : World :=
-  if w.list.contains i then gone v (closeClient w i) i else w
+  if w.list.contains i then gone v (if isOpen w i then closeClient w i else w) i else w
 
 /-- one client of `rfbScreenCleanup`: `rfbClientConnectionGone` -/
 def cleanOne (v : Variant) (w : World) (i : Nat) : World :=
@@ -470,7 +518,7 @@ inductive Op where
   | pump (xs : Ann) (rs : ResAnn)
   | appClose (i : Nat) | start (i : Nat) | refuse (i : Nat)
   | kbdClose (i : Nat) | goneKick (i k : Nat)
-  | ext
+  | ext | pw
   | shutdown | cleanup
   deriving Repr
 
@@ -490,6 +538,7 @@ def step (v : Variant) (w : World) : Op → World
   | .kbdClose i => modConn w i fun c => { c with kbdClose := true }
   | .goneKick i k => modConn w i fun c => { c with goneKick := some k }
   | .ext => { w with extOn := true }
+  | .pw => { w with pwOn := true }
   | .shutdown => shutdown v w
   | .cleanup => cleanup v w
 
